@@ -1,4 +1,6 @@
 import PGM.Model.Certificate
+import PGM.Model.Loss
+import PGM.Model.Dataset
 /-!
 # Public-data reweighting (`src/mbi/public_inference.py:20-46`): entropic mirror descent
 
@@ -43,8 +45,9 @@ def emdStep (lossgrad : List α → α × List α) (total : α) (P0 : List α) (
   let two : α := Scalar.add Scalar.one Scalar.one
   let half : α := Scalar.div Scalar.one two
   let thr := Scalar.mul (Scalar.mul half s.alpha) (dotv dL (List.zipWith Scalar.sub P0 Q))
-  -- `loss - new_loss >= thr`  as  `!(thr > loss - new_loss)`
-  if !(Scalar.gt0 (Scalar.sub thr (Scalar.sub s.loss r.1))) then
+  -- `loss - new_loss >= thr`  as  `thr - (loss - new_loss) <= 0`: false when a nan is involved, so a nan
+  -- objective value is REJECTED, as in Python (the earlier reading `!(thr - … > 0)` accepted it)
+  if Scalar.le0 (Scalar.sub thr (Scalar.sub s.loss r.1)) then
     ⟨logQ, r.1, r.2, if s.begun then s.alpha else Scalar.mul s.alpha two, s.begun⟩
   else
     ⟨s.logP, s.loss, dL, Scalar.mul s.alpha half, true⟩
@@ -61,6 +64,81 @@ def emd (lossgrad : List α → α × List α) (x0 : List α) (total eps0 : α) 
 /-- the squared-error objective of `PublicInference` as a function of the record weights -/
 def lossgradQuad (ms : List (List (List α) × List α)) (w : List α) : α × List α :=
   (Cert.loss ms w, Cert.grad ms w)
+
+/-! ## `class PublicInference` (`public_inference.py:69-131`)
+
+`weights ↦ (loss, dweights)`: the weighted public records are tabulated on every measured clique
+(`CliqueVector.from_data`), the measurement loss and its per-clique gradient tables are computed
+(`_marginal_loss`: residual `c·(Q x − y)` per measurement, metric L2 or L1), and every record collects the
+gradient entries of the cells it falls in (`dL[cl].values[tuple(idx.T)]`). -/
+
+/-- `PublicInference.__init__`: one unit weight per public record -/
+def initWeights (pub : Dataset α) : List α := List.replicate pub.records Scalar.one
+
+/-- `Dataset(pub.df, pub.domain, w)`: the public records under the weights `w` (the frame of a dataset has exactly
+the domain's columns, so selecting them again changes nothing when the attributes are distinct —
+`Proofs/PublicGen.lean: reweight_rows`) -/
+def reweight (pub : Dataset α) (w : List α) : Dataset α :=
+  Dataset.ofTable ⟨pub.dom.attrs, pub.rows⟩ pub.dom (some w)
+
+/-- `CliqueVector.from_data(est, cliques)`: the contingency table of every clique; a clique measured twice is
+tabulated twice and stored once (dict semantics) -/
+def tabulate (est : Dataset α) (cliques : List JT.Clique) : CliqueVec α :=
+  cliques.foldl (fun (ans : CliqueVec α) cl =>
+    let mu := est.project cl
+    ans.set cl (Factor.mk' mu.dom ⟨[mu.datavector.length], mu.datavector.toArray⟩)) []
+
+/-- residual `c (Q x − y)` of one measurement at the table `mu` of ITS OWN clique (no projection: in
+`PublicInference` a measurement is compared with the table keyed by its `proj`) -/
+def residual (m : Loss.Meas α) (mu : Factor α) : List α :=
+  let c := Scalar.div Scalar.one m.noise
+  (List.zipWith Scalar.sub (Loss.matVec m.Q mu.datavector) m.y).map (fun v => Scalar.mul c v)
+
+/-- one measurement's contribution to `_marginal_loss`: `lossOf` is the loss of the residual, `dirOf` the vector
+that is pulled back through `c·Qᵀ` (the residual itself for L2, its signs for L1) -/
+def measStep (lossOf : List α → α) (dirOf : List α → List α) (marginals : CliqueVec α)
+    (acc : α × CliqueVec α) (m : Loss.Meas α) : α × CliqueVec α :=
+  let mu := marginals.get m.proj
+  let c := Scalar.div Scalar.one m.noise
+  let diff := residual m mu
+  let grad := (Loss.matTVec m.Q mu.datavector.length (dirOf diff)).map (fun v => Scalar.mul c v)
+  (Scalar.add acc.1 (lossOf diff),
+   acc.2.set m.proj ((acc.2.get m.proj).iadd (Factor.mk' mu.dom ⟨[grad.length], grad.toArray⟩)))
+
+/-- `_marginal_loss` for a residual loss: gradient tables start at zero, one per key of `marginals` -/
+def marginalLossWith (lossOf : List α → α) (dirOf : List α → List α) (meas : List (Loss.Meas α))
+    (marginals : CliqueVec α) : α × CliqueVec α :=
+  meas.foldl (measStep lossOf dirOf marginals)
+    (Scalar.zero, (marginals.map Prod.fst).map (fun cl => (cl, Factor.zeros (marginals.get cl).dom)))
+
+/-- metric 'L2': `½‖diff‖²`, gradient `c·Qᵀ diff` -/
+def marginalLoss (meas : List (Loss.Meas α)) (marginals : CliqueVec α) : α × CliqueVec α :=
+  marginalLossWith (fun d => Scalar.mul (Scalar.div Scalar.one (Scalar.add Scalar.one Scalar.one)) (Loss.dot d d))
+    (fun d => d) meas marginals
+
+/-- metric 'L1': `‖diff‖₁`, gradient `c·Qᵀ sign(diff)` -/
+def marginalLossL1 (meas : List (Loss.Meas α)) (marginals : CliqueVec α) : α × CliqueVec α :=
+  marginalLossWith (fun d => Scalar.sum (d.map Loss.absS)) (fun d => d.map Loss.signS) meas marginals
+
+/-- the entries of a table at the cells of the given records (`values[tuple(idx.T)]`) -/
+def gather (a : NdArr α) (idx : List (List Int)) : List α := idx.map (fun r => a.get (r.map Int.toNat))
+
+/-- the closure `loss_and_grad` of `estimate`: `mloss` is `_marginal_loss` as a function of the current measurement
+list and the tables -/
+def lossAndGrad (mloss : List (Loss.Meas α) → CliqueVec α → α × CliqueVec α) (pub : Dataset α)
+    (meas : List (Loss.Meas α)) (w : List α) : α × List α :=
+  let est := reweight pub w
+  let r := mloss meas (tabulate est (meas.map (·.proj)))
+  (r.1, (r.2.map Prod.fst).foldl (fun (dw : List α) cl =>
+      List.zipWith Scalar.add dw (gather (r.2.get cl).vals (est.project cl).rows))
+    (List.replicate w.length Scalar.zero))
+
+/-- `PublicInference.estimate(measurements, total)`: (returned dataset, `self.weights` afterwards); `w0` is
+`self.weights` at entry (`initWeights pub` for a fresh object), 250 iterations -/
+def estimate (mloss : List (Loss.Meas α) → CliqueVec α → α × CliqueVec α) (pub : Dataset α) (w0 : List α)
+    (meas : List (Loss.Meas α)) (total eps0 : α) : Dataset α × List α :=
+  let w := emd (lossAndGrad mloss pub meas) w0 total eps0 250
+  (reweight pub w, w)
 
 end Public
 end PGM
